@@ -77,6 +77,8 @@ type Interp struct {
 	frozenMap map[*MapV]string
 	curPos    token.Pos
 	onceDone  map[*Value]bool
+	ownInit   bool
+	stubs     map[string]bool
 }
 
 type tapeEntry struct {
@@ -92,7 +94,7 @@ var infoCache sync.Map // *ssa.Function -> *fnInfo (immutable once built)
 func newInterp(conf *Config, ex *Explorer) *Interp {
 	in := &Interp{conf: conf, prog: conf.prog, globals: map[*ssa.Global]*Value{}, infos: map[*ssa.Function]*fnInfo{},
 		rtErrStr: conf.rtErr, ex: ex, mainPkg: conf.mainPkg, maxSteps: conf.maxSteps, initPkgs: conf.initPkgs,
-		nInputs: map[string]int{}, funcs: map[string]bool{}, mapSites: map[string]int{}, mapOrder: conf.mapOrder,
+		nInputs: map[string]int{}, stubs: map[string]bool{}, funcs: map[string]bool{}, mapSites: map[string]int{}, mapOrder: conf.mapOrder,
 		trace: conf.traceCalls}
 	in.sched = newSched(in)
 	return in
@@ -146,6 +148,13 @@ func (in *Interp) info(fn *ssa.Function) *fnInfo {
 	in.infos[fn] = fi
 	infoCache.Store(fn, fi)
 	return fi
+}
+
+// lazyInitOK: stdlib packages whose initialiser only builds tables and error values; it is run on
+// the first use of one of the package's variables.
+var lazyInitOK = map[string]bool{
+	"strconv": true, "io": true, "unicode/utf8": true, "strings": true, "bytes": true, "sort": true, "math": true,
+	"math/bits": true, "net/url": true, "path": true, "bufio": true, "html": false,
 }
 
 // dynInit reports whether the package initialiser of g's package stores into g.
@@ -203,7 +212,25 @@ func (in *Interp) global(g *ssa.Global) *Value {
 		return c
 	}
 	if g.Pkg != nil && !in.initPkgs[g.Pkg.Pkg.Path()] && dynInit(g) {
-		in.unsupported("use of package-level variable " + g.Pkg.Pkg.Path() + "." + g.Name() + " whose package initialiser is not executed")
+		path := g.Pkg.Pkg.Path()
+		if !lazyInitOK[path] {
+			in.unsupported("use of package-level variable " + path + "." + g.Name() + " whose package initialiser is not executed")
+		}
+		// run the initialiser of this (side-effect free, allow-listed) package on first use
+		if !in.ownInit {
+			m := make(map[string]bool, len(in.initPkgs)+4)
+			for k, v := range in.initPkgs {
+				m[k] = v
+			}
+			in.initPkgs, in.ownInit = m, true
+		}
+		in.initPkgs[path] = true
+		if f := g.Pkg.Func("init"); f != nil {
+			in.call(nil, f, nil)
+		}
+		if c, ok := in.globals[g]; ok {
+			return c
+		}
 	}
 	c := new(Value)
 	*c = zero(g.Type().(*types.Pointer).Elem())
@@ -412,7 +439,7 @@ func (in *Interp) visitInstr(fr *frame, instr ssa.Instruction) continuation {
 	case *ssa.Next:
 		fr.set(instr, fr.get(instr.Iter).(iter).next(in))
 	case *ssa.FieldAddr:
-		p := fr.get(instr.X).(*Value)
+		p := in.concPtr(fr.get(instr.X))
 		if p == nil {
 			in.rtPanic("invalid memory address or nil pointer dereference")
 		}
@@ -422,6 +449,9 @@ func (in *Interp) visitInstr(fr *frame, instr ssa.Instruction) continuation {
 	case *ssa.IndexAddr:
 		x := fr.get(instr.X)
 		var cells []Value
+		if sp, ok := x.(SymPtr); ok {
+			x = in.concPtr(sp)
+		}
 		switch x := x.(type) {
 		case []Value:
 			cells = x
@@ -979,7 +1009,9 @@ func (in *Interp) callSSA(caller *frame, fn *ssa.Function, args []Value, env []V
 			}
 		}
 		if h, ok := symIntrinsics[name]; ok {
-			return h(in, caller, args)
+			if r := h(in, caller, args); r != nil {
+				return r
+			}
 		}
 		if fn.Name() == "init" && fn.Pkg != nil && fn.Signature.Recv() == nil && !in.initPkgs[fn.Pkg.Pkg.Path()] {
 			return nil // skip init of packages outside the allowlist
@@ -1350,4 +1382,17 @@ func (in *Interp) freeze(v Value, lbl string, seen map[interface{}]bool) {
 
 func (in *Interp) freezeSlots(p *Value, lbl string, seen map[interface{}]bool) {
 	in.freeze(*p, lbl, seen)
+}
+
+
+// concPtr turns a symbolic pointer into a concrete one by concretising its index.
+func (in *Interp) concPtr(v Value) *Value {
+	switch p := v.(type) {
+	case *Value:
+		return p
+	case SymPtr:
+		ci := in.concretize(p.idx, "address computation through symbolic index")
+		return &p.cells[ci]
+	}
+	panic(fmt.Sprintf("concPtr of %T", v))
 }
